@@ -110,7 +110,7 @@ theorem k_appendPattern_fold : ∀ (pat : List Nat) (c : Bool) (done rest : List
         have ea : w + OneD.sumL ws = OneD.sumL ws + w := by omega
         have eb : done.length + w + OneD.sumL ws = done.length + (OneD.sumL ws + w) := by omega
         have ec : k + Int.ofNat w + ((OneD.sumL ws : Nat) : Int) = k + ((OneD.sumL ws + w : Nat) : Int) := by
-          simp only [Int.ofNat_eq_coe]; omega
+          simp only [Int.ofNat_eq_natCast]; omega
         simp only [List.append_assoc, ea, eb, ec]
       · have h3 : ¬ w + OneD.sumL ws ≤ rest.length := by omega
         simp only [h2, h3, if_false]
@@ -139,5 +139,77 @@ theorem k_appendPattern_eq (done rest : List Int) (pat : List Nat) (c : Bool) :
 
 example : Gen.K03w.appendPattern [0, 0, 0, 0, 0, 0, 0] 1 [1, 2, 1] true = .ok (4, [0, 1, 0, 0, 1, 0, 0]) := by decide
 example : Gen.K03w.appendPattern [0, 0, 0] 1 [1, 2, 1] true = .error oob := by decide
+
+/-! ## `onedWriter_checkNumeric` (`for _, c := range contents`: the runes of the string) -/
+
+theorem decodeRune_ascii (b : Int) (rest : List Int) (h : b < 128) : decodeRune (b :: rest) = (b, 1) := by
+  simp [decodeRune, h]
+
+theorem decodeRune_high (b : Int) (rest : List Int) (h : 128 ≤ b) : 128 ≤ (decodeRune (b :: rest)).1 := by
+  unfold decodeRune
+  have h0 : ¬ b < 128 := by omega
+  simp only [h0, if_false]
+  repeat' split
+  all_goals (try simp only [isCont, Bool.and_eq_true, decide_eq_true_eq] at *)
+  all_goals (try omega)
+  all_goals (split <;> omega)
+
+/-- the digit test of `checkNumeric`, on a rune -/
+def cnStep (c : Int) (_ : Unit) : Ctl Unit Bool :=
+  if ((decide (c < 48)) || (decide (c > 57))) then .ret true else .next ()
+
+theorem cn_fold : ∀ (s : List Nat) (fuel : Nat), s.length ≤ fuel →
+    foldC cnStep (runesF fuel (bytes s)) () = if allDigits s then .next () else .ret true := by
+  intro s
+  induction s with
+  | nil => intro fuel _; cases fuel <;> simp [runesF, bytes, foldC, allDigits]
+  | cons b t ih =>
+    intro fuel hf
+    obtain ⟨f, rfl⟩ : ∃ f, fuel = f + 1 := ⟨fuel - 1, by simp at hf; omega⟩
+    have hb : bytes (b :: t) = (b : Int) :: bytes t := by simp [bytes]
+    rw [hb]
+    simp only [runesF, foldC]
+    by_cases h : (b : Int) < 128
+    · rw [decodeRune_ascii _ _ h]
+      simp only [Nat.sub_self, List.drop_zero]
+      by_cases hd : isDigitByte b = true
+      · have hd' := hd
+        simp only [isDigitByte, Bool.and_eq_true, decide_eq_true_eq] at hd'
+        have c1 : ¬ ((b : Int) < 48) := by omega
+        have c2 : ¬ ((b : Int) > 57) := by omega
+        simp only [cnStep, c1, c2, decide_false, Bool.or_false, Bool.false_eq_true, if_false]
+        rw [ih f (by simp at hf; omega)]
+        simp [allDigits, hd]
+      · have hd' := hd
+        simp only [isDigitByte, Bool.and_eq_true, decide_eq_true_eq, Classical.not_and_iff_not_or_not] at hd'
+        have c : ((decide ((b : Int) < 48)) || (decide ((b : Int) > 57))) = true := by
+          simp only [Bool.or_eq_true, decide_eq_true_eq]; omega
+        simp only [cnStep, c, if_true]
+        simp [allDigits, hd]
+    · have hh := decodeRune_high (b : Int) (bytes t) (by omega)
+      have c : ((decide ((decodeRune ((b : Int) :: bytes t)).1 < 48)) || (decide ((decodeRune ((b : Int) :: bytes t)).1 > 57))) = true := by
+        simp only [Bool.or_eq_true, decide_eq_true_eq]; omega
+      simp only [cnStep, c, if_true]
+      have hd : isDigitByte b = false := by
+        simp only [isDigitByte, Bool.and_eq_false_iff, decide_eq_false_iff_not]; omega
+      simp [allDigits, hd]
+
+when_kernel Gzx.Gen.K03w.checkNumeric in
+/-- `onedWriter_checkNumeric(contents)` for EVERY byte string: an error iff some byte is not an ASCII digit
+    (a byte ≥ 0x80 decodes to a rune ≥ 0x80 or to U+FFFD, never to a digit) -/
+theorem k_checkNumeric_eq (s : List Nat) :
+    Gen.K03w.checkNumeric (bytes s) = .ok (!allDigits s) := by
+  simp only [Gen.K03w.checkNumeric]
+  rw [loop_up1' (runes (bytes s)) cnStep 0 (runes (bytes s)).length (by simp)
+      (body := Gen.K03w.checkNumeric_body1 (bytes s))
+      (fun i h st => by
+        unfold Gen.K03w.checkNumeric_body1
+        rw [idx_ofNat _ _ h]
+        rfl)
+      (by rw [tripUp_one]; simp [len]) (by simp)]
+  rw [List.drop_zero, List.take_of_length_le (by simp), runes, cn_fold s _ (by simp [bytes])]
+  cases allDigits s <;> rfl
+
+example : Gen.K03w.checkNumeric (bytes [49, 50, 0xC3, 0xA9]) = .ok true := by decide
 
 end Gzx.Obligations.K03w
